@@ -325,7 +325,51 @@ class Hist:
 					self.ctx.violation('commit-not-refused', f'commit() on the default session from {how}() returned normally', dict(how=how, session_class=type(s).__name__))
 			finally:
 				s.rollback(); s.close()
-		return 'library: default sessions from file_sessionmaker() and load_genomeset(): edit + flush + commit'
+			# the other transaction-shaped APIs of a session: savepoints (begin_nested), bulk statements, merge, raw DML - all on the
+			# default session, all with an edit inside, every outcome (exception or not) accepted; the Watch decides whether anything
+			# reached the file
+			s = file_sessionmaker(gdb)() if how == 'file_sessionmaker' else load_genomeset(gdb)[0]
+			try:
+				for op in ('savepoint', 'savepoint-flush', 'savepoint-commit', 'merge'):     # ORM-level pending changes only: statements the caller sends itself (bulk UPDATE, raw DML) are not "pending changes"
+					try:
+						t = s.query(Taxon).first()
+						if op in ('savepoint', 'savepoint-flush'):
+							with s.begin_nested():
+								t.description = 'edited inside a savepoint'
+								if op == 'savepoint-flush':
+									s.flush()
+						elif op == 'savepoint-commit':
+							tx = s.begin_nested()
+							t.name = 'edited in nested block'
+							tx.commit()
+						elif op == 'bulk-update':
+							s.query(Taxon).filter(Taxon.id == t.id).update({'description': 'bulk'}, synchronize_session=False)
+						elif op == 'merge':
+							s.merge(Taxon(id=t.id, key=t.key, name='merged', genome_set_id=t.genome_set_id))
+							s.flush()
+						else:
+							from sqlalchemy import text
+							s.execute(text('UPDATE taxa SET description = :d WHERE id = :i'), dict(d='raw dml', i=t.id))
+						self.ctx.count(f'session_api:{op}:returned')
+					except Exception as e:
+						self.ctx.count(f'session_api:{op}:{type(e).__name__}')
+					try:
+						s.commit()
+					except Exception:
+						self.ctx.count('commit_refused')
+					else:
+						self.ctx.violation('commit-not-refused', f'commit() on the default session from {how}() after {op} returned normally', dict(how=how, op=op))
+					try:
+						s.rollback()
+					except Exception:
+						pass
+			finally:
+				try:
+					s.rollback()
+				except Exception:
+					pass
+				s.close()
+		return 'library: default sessions from file_sessionmaker() and load_genomeset(): edit + flush + commit, savepoints, bulk and raw statements'
 
 	def step_cli_session(self):
 		"""The CLI context's own session maker must hand out a read-only session too."""
